@@ -313,3 +313,117 @@ func VH_C06_Sequence() {
 	zzverif.Assert("encrypt-under-new-key-equals-rfc", zzverif.And(err == nil, zzverif.EqBytes(c3, vhEncrypt(p, k2, conf3, msg, usage))))
 	zzverif.Reach("done")
 }
+
+// ---- C08: key derivation and string-to-key ------------------------------------------------------------
+
+// VH_C08_DeriveKey: DR / DK (RFC 3961 5.1) and the RFC 8009 KDF for a constant of clen symbolic bytes.
+func VH_C08_DeriveKey() {
+	et, clen := zzverif.Param("etype"), zzverif.Param("clen")
+	p := vhProfileOf(et)
+	e, _ := GetEtype(int32(et))
+	key := zzverif.Bytes(p.keyLen)
+	c := zzverif.Bytes(clen)
+	switch p.family {
+	case "simplified":
+		dr, err := e.DeriveRandom(key, c)
+		zzverif.Assert("derive-random-ok", err == nil)
+		zzverif.Assert("derive-random-equals-rfc3961-DR", zzverif.EqBytes(dr, vhDR(p, key, c)))
+		dk, err := e.DeriveKey(key, c)
+		zzverif.Assert("derive-key-ok", err == nil)
+		zzverif.Assert("derive-key-equals-rfc3961-DK", zzverif.EqBytes(dk, vhDK(p, key, c)))
+	case "rfc8009":
+		// usage keys: label = constant, last octet selects the length (Ke: key size, Kc/Ki: HMAC output size)
+		last := c[clen-1]
+		zzverif.Assume(last == 0xAA || last == 0x55 || last == 0x99)
+		dk, err := e.DeriveKey(key, c)
+		zzverif.Assert("derive-key-ok", err == nil)
+		kbits := p.kiLen * 8
+		if last == 0xAA {
+			kbits = p.keLen * 8
+		}
+		zzverif.Assert("derive-key-equals-rfc8009-KDF", zzverif.EqBytes(dk, vhKDFSHA2(p, key, c, nil, kbits)))
+	case "rc4":
+		dk, err := e.DeriveKey(key, c)
+		zzverif.Assert("derive-key-ok", err == nil)
+		zzverif.Assert("derive-key-is-hmac-md5", zzverif.EqBytes(dk, zzverif.HMAC("md5", key, c)))
+	}
+	zzverif.Reach("done")
+}
+
+// VH_C08_StringToKey: password and salt of the given lengths (symbolic bytes), iteration count symbolic.
+func VH_C08_StringToKey() {
+	et, plen, slen := zzverif.Param("etype"), zzverif.Param("plen"), zzverif.Param("slen")
+	p := vhProfileOf(et)
+	e, _ := GetEtype(int32(et))
+	pw, salt := zzverif.String(plen), zzverif.String(slen)
+	switch p.family {
+	case "simplified":
+		if p.cipher == "des3" {
+			k, err := e.StringToKey(pw, salt, "")
+			zzverif.Assert("s2k-ok", err == nil)
+			// RFC 3961 6.3.1: DK(random-to-key(168-fold(password | salt)), "kerberos")
+			tkey := vhRandomToKey(p, zzverif.Nfold([]byte(pw+salt), 168))
+			zzverif.Assert("des3-string-to-key-equals-rfc", zzverif.EqBytes(k, vhDK(p, tkey, []byte("kerberos"))))
+			_, err = e.StringToKey(pw, salt, "00")
+			zzverif.Assert("des3-rejects-parameters", err != nil)
+		} else {
+			it := zzverif.Uint32()
+			params := zzverif.Hex([]byte{byte(it >> 24), byte(it >> 16), byte(it >> 8), byte(it)})
+			k, err := e.StringToKey(pw, salt, params)
+			zzverif.Assert("s2k-ok", err == nil)
+			// RFC 3962 4: tkey = PBKDF2(passphrase, salt, iter, keylength); key = DK(tkey, "kerberos"); iter 0 means 2^32
+			iter := int64(it)
+			tkey := zzverif.PBKDF2(p.hash, []byte(pw), []byte(salt), iter, p.keyLen)
+			zzverif.Assert("aes-sha1-string-to-key-equals-rfc", zzverif.EqBytes(k, vhDK(p, tkey, []byte("kerberos"))))
+		}
+	case "rfc8009":
+		it := zzverif.Uint32()
+		params := zzverif.Hex([]byte{byte(it >> 24), byte(it >> 16), byte(it >> 8), byte(it)})
+		k, err := e.StringToKey(pw, salt, params)
+		zzverif.Assert("s2k-ok", err == nil)
+		// RFC 8009 4: saltp = enctype-name | 0x00 | salt ; tkey = PBKDF2(passphrase, saltp, iter, keylength) ; base-key = KDF-HMAC-SHA2(tkey, "kerberos", keylength)
+		name := "aes128-cts-hmac-sha256-128"
+		if et == 20 {
+			name = "aes256-cts-hmac-sha384-192"
+		}
+		saltp := vhCat([]byte(name), []byte{0}, []byte(salt))
+		tkey := zzverif.PBKDF2(p.hash, []byte(pw), saltp, int64(it), p.keyLen)
+		zzverif.Assert("aes-sha2-string-to-key-equals-rfc", zzverif.EqBytes(k, vhKDFSHA2(p, tkey, []byte("kerberos"), nil, p.keyLen*8)))
+	}
+	zzverif.Reach("done")
+}
+
+// VH_C08_DefaultParams: the default iteration counts are the RFC ones (4096 for aes-sha1, 32768 for aes-sha2)
+func VH_C08_DefaultParams() {
+	for _, c := range []struct {
+		et   int32
+		want string
+	}{{17, "00001000"}, {18, "00001000"}, {19, "00008000"}, {20, "00008000"}, {16, ""}, {23, ""}} {
+		e, _ := GetEtype(c.et)
+		zzverif.Assert("default-s2k-params", e.GetDefaultStringToKeyParams() == c.want)
+	}
+	zzverif.Reach("done")
+}
+
+// VH_C08_GeneratedKey: a key the library generates for an etype has the length the etype requires and
+// encrypts and decrypts with that etype.
+func VH_C08_GeneratedKey() {
+	et := zzverif.Param("etype")
+	p := vhProfileOf(et)
+	e, _ := GetEtype(int32(et))
+	k, err := vhGenerateKey(e)
+	zzverif.RandLog()
+	zzverif.Assert("generate-ok", err == nil)
+	zzverif.Assert("generated-key-type", k.KeyType == int32(et))
+	zzverif.Assert("generated-key-has-etype-key-length", len(k.KeyValue) == p.keyLen)
+	msg := zzverif.Bytes(5)
+	_, ct, err := e.EncryptMessage(k.KeyValue, msg, 11)
+	zzverif.Assert("generated-key-encrypts", err == nil)
+	if err == nil {
+		_, err = e.DecryptMessage(k.KeyValue, ct, 11)
+		zzverif.Assert("generated-key-decrypts", err == nil)
+	}
+	sk, err := vhGenerateSubKey(e)
+	zzverif.Assert("generated-subkey-has-etype-key-length", zzverif.And(err == nil, len(sk.KeyValue) == p.keyLen))
+	zzverif.Reach("done")
+}
